@@ -15,7 +15,7 @@ VERIF = os.path.dirname(os.path.abspath(__file__))
 REPO = os.environ.get("VERIF_REPO", "/repo")
 GO = os.environ.get("VERIF_GO", "go1.26.8")
 ENV = dict(os.environ, GOFLAGS="-mod=mod", GOPROXY="off", GOSUMDB="off", GOTOOLCHAIN="local")
-NPROC = min(16, os.cpu_count() or 4)
+NPROC = int(os.environ.get("VERIF_NPROC") or min(16, os.cpu_count() or 4))
 GORACE_OPTS = "log_path=%s halt_on_error=0 history_size=3 atexit_sleep_ms=0 exitcode=0 suppress_equal_stacks=0 suppress_equal_addresses=0"
 
 sys.path.insert(0, VERIF)
